@@ -167,7 +167,8 @@ fn run_mode(ctx: &mut Ctx, mode: Mode) {
                         if mode == Mode::Diff && name.contains('[') {
                             continue;
                         }
-                        let Some(inputs) = input_vectors(&prog, func, small, max_params, max_vectors) else {
+                        let small_here = small && !snip.name.starts_with("hintx:");
+                        let Some(inputs) = input_vectors(&prog, func, small_here, max_params, max_vectors) else {
                             if cfg_i == 0 {
                                 ctx.count("functions_skipped_non_scalar_params", 1);
                                 if std::env::var("VERIF_LIST_SKIPPED").is_ok() {
